@@ -9,6 +9,7 @@
      call  := (call (xARG ...) oc 0|1)               application args, OnCompletion, 1 = ApplicationID is 0
    Commands:
      (run (ctx ...) "teal")            as in the main binary: execute TEAL on the AVM model
+     (runs (msel ...) "teal" (c (xARG ...) oc appid) ...) -> (r (verdict xLOG ...) ...)   one program, many application calls
      (register ba none|N (m ...))      -> (ok) | (err kind)
      (cfgok cfg)                       -> true | false
      (table cfg call ...)              -> (t (D A) ...)  D = dispatch: (runs N) | rejects | fails ; A = allowed: (some N) | none
@@ -43,6 +44,49 @@ Definition do_run (body : list sexp) : sexp :=
           end
       end
   | _ => err "run: expected (ctx ...) and a program text"
+  end.
+
+(* (runs (msel ("sig" xSEL) ...) "teal" (c (xARG ...) oc appid) ...) -> (r (verdict xLOG ...) ...)
+   the program is parsed once and run on one application-call context per (c ...) form: a single-transaction
+   group, TypeEnum appl, the given ApplicationArgs / NumAppArgs / OnCompletion / ApplicationID (CurrentApplicationID
+   is 1234 on creation), fuel 6000 *)
+Definition zero32 : bytes := repeat Ascii.zero 32.
+
+Definition call_ctx (args : list bytes) (oc appid : N) : ctx :=
+  let fields := [("OnCompletion", VI oc); ("ApplicationID", VI appid); ("NumAppArgs", VI (N.of_nat (List.length args)));
+                 ("TypeEnum", VI 6); ("GroupIndex", VI 0); ("Fee", VI 1000); ("Sender", VB zero32)] in
+  let t := mkTxn fields [("ApplicationArgs", map VB args)] [] 0 in
+  mkCtx true [t] 0 [("MinTxnFee", VI 1000); ("GroupSize", VI 1); ("ZeroAddress", VB zero32)] []
+        (if N.eqb appid 0 then 1234%N else appid).
+
+Definition w_cctx (e : sexp) : option ctx :=
+  match e with
+  | SList [Atom "c"; SList args; o; a] =>
+      match w_list w_bytes args, w_N o, w_N a with
+      | Some args, Some o, Some a => Some (call_ctx args o a)
+      | _, _, _ => None
+      end
+  | _ => None
+  end.
+
+Definition logs_of (tr : list event) : list sexp :=
+  flat_map (fun e => match e with ELog b => [sHex b] | _ => [] end) tr.
+
+Definition do_runs (body : list sexp) : sexp :=
+  match body with
+  | SList (Atom "msel" :: ms) :: Str text :: calls =>
+      match w_list (w_pair w_string w_bytes) ms, w_list w_cctx calls with
+      | Some msel, Some cxs =>
+          match parse_program msel text with
+          | None => SList [Atom "parse-error"]
+          | Some p =>
+              SList (Atom "r" :: map (fun cx =>
+                let '(v, m) := run (N.to_nat 6000) cx p (init_mach (init_state [] [] [])) in
+                SList (p_verdict v :: logs_of (rev (s_trace (m_st m))))) cxs)
+          end
+      | _, _ => err "runs: unreadable"
+      end
+  | _ => err "runs: expected (msel ...) teal calls"
   end.
 
 (* ---- readers ---- *)
@@ -288,6 +332,7 @@ Definition dispatch_cmd (e : sexp) : sexp :=
   match e with
   | SList (Atom cmd :: body) =>
       if String.eqb cmd "run" then do_run body
+      else if String.eqb cmd "runs" then do_runs body
       else if String.eqb cmd "register" then do_register body
       else if String.eqb cmd "cfgok" then do_cfgok body
       else if String.eqb cmd "table" then do_table false body
